@@ -287,8 +287,10 @@ def _rand_user(rng, d, malformed, other_tags):
         if rng.random() < p_take:
             k = 1
             if len(cls) > 1 and rng.random() < 0.25: k = rng.randint(2, min(3, len(cls)))   # injected duplicates
+            same = (k > 1 and rng.random() < 0.5)     # a class given twice with IDENTICAL data is still a duplicate
+            shared = (float(np.float64(rng.lognormvariate(0, 0.5))), float(np.float64(rng.gauss(0, 1))))
             for t in rng.sample(list(cls), k):
-                items.append((t, (float(np.float64(rng.lognormvariate(0, 0.5))), float(np.float64(rng.gauss(0, 1))))))
+                items.append((t, shared if same else (float(np.float64(rng.lognormvariate(0, 0.5))), float(np.float64(rng.gauss(0, 1))))))
     nbogus = rng.choice([0, 0, 1, 2, 3])
     for _ in range(nbogus):
         r = rng.random()
